@@ -153,6 +153,8 @@ ASSUME \A n \in DOMAIN MCFlights :
                                     random_from |-> RandomFrom, random_to |-> RandomTo,
                                     segs  |-> SetToSeq(MCSegsOf(n)) ]) >>)
 
+ASSUME PrintT(<< "PAUSES", ToJson([ms |-> PauseMs]) >>)
+
 \* one line per way the peek can end, per scenario (the driver collects the set)
 EmitOutcome ==
     (phase = "wrapped" /\ tlsLen = 0 /\ ppos = 0) =>
